@@ -35,7 +35,7 @@ Fixpoint bad_idx {A} (f : A -> bool) (i : nat) (l : list A) : list nat :=
   match l with [] => [] | x :: r => if f x then bad_idx f (S i) r else i :: bad_idx f (S i) r end.
 """
 XML_NS = "http://www.w3.org/XML/1998/namespace"
-FLAG_NAMES = ["check", "check_attrs", "model_capacity_ok", "guard_seq", "guard_or", "order_safe", "rep_confined", "cm_wf", "amp_default"]
+FLAG_NAMES = ["check", "check_attrs", "model_capacity_ok", "guard_seq", "guard_or", "order_safe", "rep_confined", "cm_wf", "amp_default", "guard_orseq"]
 
 
 # ------------------------------------------------------------------ Coq evaluation of a file with several Evals
@@ -367,7 +367,8 @@ def run(ck: Check):
                  "bad_idx doc_in_lang 0 ALLDOCS", "map doc_rejecting ALLDOCS",
                  "bad_idx (fun pd => negb (doc_has_mixed_ws pd)) 0 ALLDOCS",
                  "bad_idx (fun pd => negb (doc_has_wild_tail pd)) 0 ALLDOCS",
-                 "bad_idx (fun pd => negb (doc_has_amp_class pd)) 0 ALLDOCS"]
+                 "bad_idx (fun pd => negb (doc_has_amp_class pd)) 0 ALLDOCS",
+                 "map doc_class_idx ALLDOCS"]
         t0 = time.time()
         out = coq_multi(f"s{si}", defs, evals, timeout=600)
         shard_times.append(round(time.time() - t0, 1))
@@ -381,13 +382,14 @@ def run(ck: Check):
     KNOWN = {"seq": "dtd-seq-group-occurrence-dropped", "or": "dtd-choice-member-occurrence-overridden",
              "ns": "dtd-element-namespaces-lost", "any": "dtd-any-text-after-child",
              "tail": "dtd-any-child-tail-captured", "amp": "dtd-attribute-default-ampersand-unexpanded",
+             "orseq": "dtd-choice-of-sequence-one-compound-slot",
              "ws": "mixed-whitespace-only-text-dropped"}
     stats = {"classes": 0, "classes_check_true": 0, "docs_ok": 0, "docs_parse_failed": 0, "witness_confirmed": 0,
              "witness_unconfirmed": 0, "order_claimed_docs": 0}
     witness_jobs = []
     distinct = set()
 
-    def classify(flags, gns, code):
+    def classify(flags, gns, code, compound=False):
         """Narrow class of a rejection at a class with these Coq-computed flags, or None (= new violation)."""
         if code == 3:
             return KNOWN["any"] if not flags[0] else None
@@ -396,7 +398,8 @@ def run(ck: Check):
         if code != 1:
             return None
         if flags[2]:
-            return None                      # the mapper model kept capacity: the loss is elsewhere
+            # the mapper model kept capacity: the loss is elsewhere (only clause 4 explains one)
+            return KNOWN["orseq"] if compound and not flags[9] else None
         if not gns:
             return KNOWN["ns"]
         if not flags[3]:
@@ -407,7 +410,7 @@ def run(ck: Check):
 
     for si, sh in enumerate(shards):
         (bad_parser, bad_mapper, flags, rejected, gns, bad_pa, bad_info, bad_unord, bad_reval, bad_lang, rejecting,
-         has_ws, has_wt, has_amp) = results[si]
+         has_ws, has_wt, has_amp, doc_cls) = results[si]
         docmap = [(k, j) for k, run in enumerate(sh) for j in range(len(run["p"]["docs"]))]
         for k in bad_parser:
             ck.failure("corr-dtd-parser", "Model/Dtd.v parse_dtd disagrees with DtdParser.parse",
@@ -437,7 +440,7 @@ def run(ck: Check):
                         w, text = [[ord(c) for c in clark(d, d["elements"][-1]["name"])]], True
                     if w is not None:
                         witness_jobs.append((run, ci, el, fl, gns[k], ["".join(chr(c) for c in q) for q in w], text))
-                    elif fl[2]:
+                    elif fl[2] and not (run["compound"] and not fl[9]):
                         ck.failure("capacity-lost-after-mapper", f"validator rejects the metadata of {el['name']} although the mapper kept capacity; no witness word",
                                    replay_of(run, element=el["name"]))
         bad_pa, bad_info, bad_unord, bad_reval, bad_lang, has_ws, has_wt, has_amp = map(
@@ -457,7 +460,7 @@ def run(ck: Check):
                     continue
                 for ci, code in rejecting[di]:
                     fl = flags[k][ci] if ci < len(flags[k]) else None
-                    cls = classify(fl, gns[k], code) if fl else None
+                    cls = classify(fl, gns[k], code, run["compound"]) if fl else None
                     el = run["p"]["d"]["elements"][ci]["name"] if fl else "?"
                     what = f"valid document not parsed ({dr['err']}: {dr['msg'][:80]}) at element {el} [code {code}]"
                     ck.failure(cls or "valid-document-rejected", what, replay_of(run, doc=doc, impl=dr, element=el))
@@ -469,7 +472,7 @@ def run(ck: Check):
                     if di in bad_unord and rejecting[di]:
                         for ci, code in rejecting[di]:
                             fl = flags[k][ci] if ci < len(flags[k]) else None
-                            cls = classify(fl, gns[k], code) if fl else None
+                            cls = classify(fl, gns[k], code, run["compound"]) if fl else None
                             el = run["p"]["d"]["elements"][ci]["name"] if fl else "?"
                             ck.failure(cls or "valid-document-children-dropped",
                                        f"valid document parsed without error but children of {el} were silently dropped [code {code}]",
@@ -485,10 +488,12 @@ def run(ck: Check):
                     ck.failure(cls, "output does not have the same elements, attributes and values as the input (defaults applied)",
                                replay_of(run, doc=doc, out=dr["ok"]))
                 elif di in bad_info:
-                    ck.failure("order-not-preserved", "element order changed although the side condition for order holds",
+                    orseq = run["compound"] and any(not flags[k][ci][9] for ci in doc_cls[di] if ci < len(flags[k]))
+                    ck.failure(KNOWN["ns"] if not gns[k] else (KNOWN["orseq"] if orseq else "order-not-preserved"), "element order changed although the side condition for order holds",
                                replay_of(run, doc=doc, out=dr["ok"]))
                 if di in bad_reval:
-                    ck.failure(KNOWN["ns"] if not gns[k] else "output-not-dtd-valid", "serialized output is not DTD-valid although order is claimed for all its elements",
+                    orseq = run["compound"] and any(not flags[k][ci][9] for ci in doc_cls[di] if ci < len(flags[k]))
+                    ck.failure(KNOWN["ns"] if not gns[k] else (KNOWN["orseq"] if orseq else "output-not-dtd-valid"), "serialized output is not DTD-valid although order is claimed for all its elements",
                                replay_of(run, doc=doc, out=dr["ok"]))
 
     # ---------------- witnesses of failed validator runs, replayed through the real parser
@@ -510,12 +515,25 @@ def run(ck: Check):
             dr = rs["docs"][0] if rs["docs"] else {"err": "gen", "msg": ""}
             if "err" in dr:
                 stats["witness_confirmed"] += 1
-                cls = classify(fl, g, code)
+                cls = classify(fl, g, code, run["compound"])
                 ck.failure(cls or "validator-rejects-metadata",
                            f"validator: metadata of {el['name']} cannot hold a valid document ({dr['err']}: {dr['msg'][:80]})",
                            replay_of(run, doc=wdoc, impl=dr, element=el["name"]))
             else:
-                stats["witness_unconfirmed"] += 1
+                # accepted: either the validator is conservative here, or the parser dropped children silently
+                try:
+                    n_in = sum(1 for _ in parse_doc(wdoc).iter("*"))
+                    n_out = sum(1 for _ in parse_doc(dr["ok"]).iter("*"))
+                except etree.XMLSyntaxError:
+                    n_in, n_out = 0, -1
+                if n_out != n_in:
+                    stats["witness_confirmed"] += 1
+                    cls = classify(fl, g, code, run["compound"])
+                    ck.failure(cls or "validator-rejects-metadata",
+                               f"validator: a valid document for {el['name']} is parsed without error but comes back with {n_out} of {n_in} elements",
+                               replay_of(run, doc=wdoc, out=dr["ok"], element=el["name"]))
+                else:
+                    stats["witness_unconfirmed"] += 1
 
     ck.cov["distinct_nontrivial"] = len(distinct)
     ck.cov["rule"] = ("one case = (DTD, element class, compound setting) whose metadata went through `check`; evaluations = documents "
